@@ -3369,8 +3369,9 @@ fn rdh_identity_edit(r: &mut itsgen::rdh::Rdh, rng: &mut Rng, not_first: bool) {
     match rng.below(7) {
         0 | 1 => r.version = *rng.pick(&[6u8, 7, 5, 8]),
         2 if not_first => r.system_id = *rng.pick(&[0x20u8, 0x21, 0x03, 0x06, 0x4D, 0x00, 0x63, 0xFE]),
-        // (a reserved bit of the FEE ID: another FEE ID as far as dispatching and exact filters are concerned)
-        5 if not_first && rng.chance(1, 2) => r.fee_id |= *rng.pick(&[0x0040u16, 0x0080, 0x0400, 0x0800, 0x8000]),
+        // (a reserved bit of the FEE ID on single packets was tried here and withdrawn: such a packet IS a packet of
+        // another FEE ID as far as dispatching and exact filters can know, so nothing about its link can be expected;
+        // FEE IDs that differ in a reserved bit exist as the identity of whole links instead: `reserved_bit_twin`)
         2 => r.system_id = *rng.pick(&[0x20u8, 0x21, 0x03, 0x06]),
         3 => r.priority ^= 1,
         4 => r.detector_field ^= 1 << rng.below(32),
